@@ -256,16 +256,20 @@ def dispatch (op : String) (a : Array String) : Option String :=
             | none => "none"
             | some (q, h, pw, n) => " ".intercalate ([q, h, pw, n].map Gen.bitsOf))
   | "spec.findop" =>
-    -- spec.findop sysAtQimin pumpAtQimin qimin qlast <n> then n triples q hs hp   (the tape of scipy's evaluations of calc_system_head)
-    if a.size < 5 then none else
-    let n := (a[4]!).toNat!
-    if a.size != 5 + 3 * n then none else
-    let tape := (List.range n).map fun i => (a[5 + 3 * i]!, Gen.fOfBits a[6 + 3 * i]!, Gen.fOfBits a[7 + 3 * i]!)
+    -- spec.findop sysAtQimin pumpAtQimin qimin qlast <bracket: bits | none> <n> then n triples q hs hp   (the tape of scipy's evaluations of calc_system_head)
+    if a.size < 6 then none else
+    let n := (a[5]!).toNat!
+    if a.size != 6 + 3 * n then none else
+    let tape := (List.range n).map fun i => (a[6 + 3 * i]!, Gen.fOfBits a[7 + 3 * i]!, Gen.fOfBits a[8 + 3 * i]!)
     let heads : Float → Float × Float := fun q => match tape.find? (fun e => e.1 == Gen.bitsOf q) with
       | some e => e.2
       | none => (0.0 / 0.0, 0.0 / 0.0)
     let f := fun i => Gen.fOfBits a[i]!
-    some (match Spec.OpPoint.findOp (α := Float) heads (f 0) (f 1) (f 2) (f 3) with
+    -- a[4]: "unconsulted" (the implementation made no bracketing call) | "none" (called, not converged) | bits of the root it returned
+    let bracket : Spec.OpPoint.Outcome Float := if a[4]! == "none" || a[4]! == "unconsulted" then .notConverged (0.0 / 0.0) else .converged (f 4)
+    if Spec.OpPoint.consultsBracket (α := Float) heads (f 0) (f 1) (f 2) (f 3) != (a[4]! != "unconsulted") then
+      some (if a[4]! == "unconsulted" then "bracketing-call-expected" else "bracketing-call-unexpected") else
+    some (match Spec.OpPoint.findOp (α := Float) heads (f 0) (f 1) (f 2) (f 3) bracket with
       | .flow q => "flow " ++ Gen.bitsOf q
       | .operatingPointError => "OperatingPointError")
   | _ => none
